@@ -469,7 +469,7 @@ def file_plan(ctx, salt):
         plan.append((("dict",), comp, rng.choice([1, 2, 4, 5, 6, 7, 8, 9])))
     big = [("rand", 20000, rng.randrange(1000)), ("rep", 20000)]
     if ctx.thorough:
-        big += [("rand", 70000, rng.randrange(1000)), ("str", 600000), ("rand", 1200000, 5)]
+        big += [("rand", 70000, rng.randrange(1000)), ("str", 600000), ("rand", 300000, 5)]
     for spec in big:
         for comp in COMPRESSORS:
             lv = (rng.choice([1, 3, 6, 9]) if comp in ("zlib", "gzip", "bz2") else 3) if comp != "none" else 0
@@ -548,12 +548,6 @@ def _explore(ctx, salt, plan=None, only=None, budget_scale=1):
         if isinstance(b, Exception):
             raise b if isinstance(b, core.InfraError) else core.InfraError(repr(b))
         replies.update(b)
-    if os.environ.get("C14_DEBUG"):
-        import sys as _s
-        for i, v in sorted(replies.items()):
-            if v["cls"] == "infra":
-                print("DBG", i, items[i]["spec"], items[i]["comp"], items[i]["damage"][:2], items[i]["route"], v, file=_s.stderr)
-    res.extra["impl_wall_s"] = round(time.time() - t0, 2)
 
     # model: one request per distinct damaged file
     lines, keys = [], {}
@@ -650,7 +644,7 @@ def _explore(ctx, salt, plan=None, only=None, budget_scale=1):
     res.assumptions = [
         "files are written by the same joblib (dump is not under test here); plain Python objects run under /venv/bin/python, objects holding numpy arrays under python3-vt (numpy) with PYTHONPATH-free sys.path insertion of VERIF_REPO",
         f"watchdog {watchdog}s per case, address-space cap {CAP_MB} MiB per worker; slowest terminating case {slow}s",
-        "payload < 1 MiB in the quick tier, so the first BufferedReader fill drives the file object to end of stream",
+        "payloads are < 1 MiB except the thorough tier's 1.2 MB compressible string (two BufferedReader fills); the model (lists) is quadratic in the raw size, so incompressible files stop at 300 KB",
     ]
     return res
 
@@ -665,7 +659,7 @@ def _drive(ctx, lines, shards=8):
 
     def go(i):
         try:
-            outs[i] = ctx.driver().run(parts[i])
+            outs[i] = ctx.driver().run(parts[i], timeout=1500)
         except Exception as e:  # noqa: BLE001
             errs.append(e)
 
